@@ -126,6 +126,7 @@ type MatOpts struct {
 	Policy       string                            // C19: redaction policy of the trigger environment
 	NoName       bool                              // C19: contact without a name
 	ResumePolicy string                            // C19: every resume carries an environment with this redaction policy
+	QueryGroup   bool                              // fault group_added: the assets hold a query-based group that matches the contact
 	InspectW     *lineWriter                       // C20: write inspection-vs-execution lines here
 	insp         *inspector
 }
@@ -286,8 +287,12 @@ func matAssets(b *Behaviour, opts *MatOpts, gone map[int]bool) []byte {
 		"channels": []M{{"uuid": "57f1078f-88aa-46f4-a59a-948a5739c03d", "name": "Android", "address": "+17036975131", "schemes": []string{"tel"},
 			"roles": []string{"send", "receive", "call", "answer"}, "country": "US"}},
 		"optins": []M{{"uuid": "248be71d-78e9-4d71-a6c4-9981d369e5cb", "name": "Joke Of The Day"}},
+		"groups": []M{},
 		"topics": []M{{"uuid": "472a7a73-96cb-4736-b567-056d987cc5b4", "name": "Weather"}},
 		"users":  []M{{"email": "bob@nyaruka.com", "name": "Bob"}},
+	}
+	if opts.QueryGroup {
+		a["groups"] = []M{{"uuid": "1e1ce1e1-9288-4504-869e-022d1003c72a", "name": "Everybody with a name", "query": "name != \"\""}}
 	}
 	return mustJSON(a)
 }
